@@ -2,9 +2,9 @@
 SPECIFICATION OmpSpec
 CONSTANTS
   Classes <- OClassesQuick
-  Heads <- OHeads
+  Heads <- OHeadsQ
   Menu <- DMenu
-  Plans <- OPlans
+  Plans <- OPlansQ
   Wraps <- OWraps
   NoBarChoices <- ONoBar
   ArgVecs <- MCArgVecs
